@@ -351,15 +351,6 @@ impl<B: Backend> Fixture<B> {
     /// the slot/port classes (F1 always covers every limb cell by construction).
     pub fn enumerate(&self, units: &[usize]) -> Vec<Fault> {
         let mut v = vec![];
-        // F1: every cell of every matrix (padding included)
-        for (t, m) in self.cellmap.honest.iter().enumerate() {
-            let h = m.values.len() / m.width.max(1);
-            for row in 0..h {
-                for col in 0..m.width {
-                    v.push(Fault::F1 { table: t, row, col });
-                }
-            }
-        }
         // F2 / F3: every slot that has a first writer
         for (s, d) in self.definers.iter().enumerate() {
             if d.is_none() {
@@ -416,6 +407,15 @@ impl<B: Backend> Fixture<B> {
             for p in ports {
                 for &u in units {
                     v.push(Fault::F4 { op: oi, port: p, unit: u });
+                }
+            }
+        }
+        // F1 last (the bulk): every cell of every matrix (padding included)
+        for (t, m) in self.cellmap.honest.iter().enumerate() {
+            let h = m.values.len() / m.width.max(1);
+            for row in 0..h {
+                for col in 0..m.width {
+                    v.push(Fault::F1 { table: t, row, col });
                 }
             }
         }
